@@ -10,6 +10,7 @@ context table, codec tables); it is not used to run repository functions on inpu
 import ast
 import collections
 import itertools
+import re
 import string as _string
 
 from .index import src, dotted
@@ -30,6 +31,7 @@ class Unfoldable(Exception):
 STD_CONSTS = {
     'string.ascii_letters': _string.ascii_letters, 'string.ascii_lowercase': _string.ascii_lowercase,
     'string.ascii_uppercase': _string.ascii_uppercase, 'string.digits': _string.digits,
+    're.UNICODE': re.UNICODE, 're.IGNORECASE': re.IGNORECASE, 're.I': re.I, 're.U': re.U,
 }
 PURE_FUNCS = {
     'len': len, 'min': min, 'max': max, 'ord': ord, 'chr': chr, 'str': str, 'int': int, 'abs': abs, 'sum': sum, 'any': any, 'all': all,
@@ -39,9 +41,35 @@ PURE_FUNCS = {
     'itertools.combinations': itertools.combinations, 'combinations': itertools.combinations, 'itertools.permutations': itertools.permutations,
     'itertools.chain': itertools.chain, 'chain': itertools.chain, 'itertools.combinations_with_replacement': itertools.combinations_with_replacement,
     'divmod': divmod, 'round': round, 'isinstance': None, 'next': None,
+    're.compile': re.compile, 're.split': re.split, 're.sub': re.sub, 're.escape': re.escape,
     'collections.defaultdict': collections.defaultdict, 'defaultdict': collections.defaultdict, 'collections.Counter': collections.Counter, 'Counter': collections.Counter,
 }
 PURE_FUNCS = {k: v for k, v in PURE_FUNCS.items() if v is not None}
+
+
+class Raised(Unfoldable):
+    """an exception the interpreted code raises (by a raise statement, a failing unpacking / conversion / lookup): caught by the interpreted
+    try statements; for constant folding it is just another reason why an expression has no value"""
+    def __init__(self, name, msg=''):
+        super().__init__(f'{name}: {msg}')
+        self.name = name
+
+
+EXC_BASES = {'KeyError': ('LookupError',), 'IndexError': ('LookupError',), 'ValueError': (), 'TypeError': (), 'AssertionError': (), 'AttributeError': (), 'ZeroDivisionError': ('ArithmeticError',),
+             'StopIteration': (), 'UnicodeDecodeError': ('ValueError',)}
+
+
+def _exc_matches(name, handler_type, is_subclass=None):
+    if handler_type is None:
+        return True
+    names = [dotted(t) or '?' for t in (handler_type.elts if isinstance(handler_type, ast.Tuple) else [handler_type])]
+    for h in names:
+        h = h.split('.')[-1]
+        if h in ('BaseException', 'Exception') or h == name or h in EXC_BASES.get(name, ()):
+            return True
+        if is_subclass is not None and is_subclass(name, h):
+            return True
+    return False
 
 
 class LocalFn:
@@ -55,6 +83,7 @@ PURE_METHODS = {
     tuple: {'index', 'count'},
     set: {'union', 'intersection', 'difference', 'copy'},
     frozenset: {'union', 'intersection', 'difference'},
+    re.Pattern: {'split', 'sub', 'findall', 'match', 'search', 'fullmatch'},
 }
 
 
@@ -163,7 +192,7 @@ class Evaluator:
             try:
                 return v[self.ev(e.slice, env)]
             except Exception as ex:
-                raise Unfoldable(f'subscript: {ex}')
+                raise Raised(type(ex).__name__, f'subscript: {ex}')
         if isinstance(e, ast.Slice):
             return slice(*(None if x is None else self.ev(x, env) for x in (e.lower, e.upper, e.step)))
         if isinstance(e, ast.JoinedStr):
@@ -210,7 +239,7 @@ class Evaluator:
         elif isinstance(target, (ast.Tuple, ast.List)):
             vals = list(value)
             if len(vals) != len(target.elts):
-                raise Unfoldable('unpack')
+                raise Raised('ValueError', 'unpack')
             for t, v in zip(target.elts, vals):
                 self.bind(t, v, env)
         elif isinstance(target, ast.Attribute) and dotted(target):
@@ -231,8 +260,12 @@ class Evaluator:
         d = dotted(e.func)
         args = [self.ev(a, env) for a in e.args]
         kwargs = {k.arg: self.ev(k.value, env) for k in e.keywords if k.arg}
-        if any(k.arg is None for k in e.keywords):
-            raise Unfoldable('**kwargs')
+        for k in e.keywords:
+            if k.arg is None:
+                extra = self.ev(k.value, env)
+                if not isinstance(extra, dict):
+                    raise Unfoldable('**kwargs')
+                kwargs.update(extra)
         if isinstance(e.func, ast.Name) and isinstance(env.get(e.func.id), LocalFn):
             lf = env[e.func.id]
             self.budget -= 5
@@ -250,7 +283,7 @@ class Evaluator:
                     r = list(r)
                 return r
             except Exception as ex:
-                raise Unfoldable(f'{d}: {ex}')
+                raise Raised(type(ex).__name__, f'{d}: {ex}')
         if isinstance(e.func, ast.Attribute):
             recv = self.ev(e.func.value, env)
             # containers built inside the interpreted function may be filled in place (the interpreter owns them; callers pass copies of inputs)
@@ -259,7 +292,7 @@ class Evaluator:
                     try:
                         return getattr(recv, e.func.attr)(*args, **kwargs)
                     except Exception as ex:
-                        raise Unfoldable(f'{e.func.attr}: {ex}')
+                        raise Raised(type(ex).__name__, f'{e.func.attr}: {ex}')
             for typ, names in PURE_METHODS.items():
                 if isinstance(recv, typ) and e.func.attr in names:
                     try:
@@ -268,7 +301,7 @@ class Evaluator:
                             r = list(r)
                         return r
                     except Exception as ex:
-                        raise Unfoldable(f'{e.func.attr}: {ex}')
+                        raise Raised(type(ex).__name__, f'{e.func.attr}: {ex}')
         raise Unfoldable(f'call {src(e.func)}')
 
 
@@ -301,7 +334,7 @@ class _Continue(Exception):
     pass
 
 
-def run_function(fdef, args, kwargs=None, env=None, budget=20000, call_hook=None):
+def run_function(fdef, args, kwargs=None, env=None, budget=20000, call_hook=None, is_subclass=None, active=None):
     """Interpret a pure function body (Assign / AugAssign / If / For / While-free / Return / Continue / Break / Expr / Pass)."""
     ev = Evaluator({}, budget=budget, call_hook=call_hook)
     scope = dict(env or {})
@@ -317,6 +350,7 @@ def run_function(fdef, args, kwargs=None, env=None, budget=20000, call_hook=None
     for k, v in (kwargs or {}).items():
         scope[k] = v
 
+    active = active if active is not None else []          # exceptions being handled (for a bare `raise`, also inside a function called from a handler)
     yields = []
     is_gen = any(isinstance(n, (ast.Yield, ast.YieldFrom)) for st_ in fdef.body for n in _walk_own(st_))
 
@@ -332,6 +366,37 @@ def run_function(fdef, args, kwargs=None, env=None, budget=20000, call_hook=None
             yields.extend(list(ev.ev(s.value.value, scope)))
         elif isinstance(s, (ast.FunctionDef,)):
             scope[s.name] = LocalFn(s, scope)
+        elif isinstance(s, ast.Try):
+            try:
+                block(s.body)
+            except Raised as r_:
+                for h in s.handlers:
+                    if _exc_matches(r_.name, h.type, is_subclass):
+                        if h.name:
+                            scope[h.name] = r_
+                        try:
+                            active.append(r_)
+                            block(h.body)
+                        finally:
+                            active.pop()
+                            block(s.finalbody)
+                        break
+                else:
+                    block(s.finalbody)
+                    raise
+            else:
+                block(s.orelse)
+                block(s.finalbody)
+        elif isinstance(s, ast.Raise):
+            if s.exc is None:
+                if active:
+                    raise active[-1]
+                raise Raised('RuntimeError', 'no active exception')
+            e_ = s.exc.func if isinstance(s.exc, ast.Call) else s.exc
+            raise Raised((dotted(e_) or '?').split('.')[-1], src(s.exc)[:60])
+        elif isinstance(s, ast.Assert):
+            if not ev.ev(s.test, scope):
+                raise Raised('AssertionError', src(s.test)[:60])
         elif isinstance(s, ast.While):
             while ev.ev(s.test, scope):
                 ev.tick()
